@@ -146,7 +146,7 @@ def main():
         files = rest or sorted(glob.glob("/verif/benign/*.diff"))
 
         def one(w, f):
-            r = run_checks(w, f, ALL, False)
+            r = run_checks(w, f, os.environ.get("PT_CHECKS", "").split() or ALL, False)
             noisy = {c: v for c, v in r.get("checks", {}).items() if v["rc"] != 0}
             return {"id": os.path.basename(f), "verdict": "silent" if r["status"] == "ran" and not noisy else f"NOISY {sorted(noisy)} {r.get('status')}", "noisy": noisy}
         open(f"{PT}/benign.jsonl", "w").close()
